@@ -142,6 +142,23 @@ macro_rules! cfg_impl {
                 cx.context.push(format!("pai rawops {pre} {} {} {}", bhex(c), bhex(c2), bhex(k)));
             }
 
+            /// C07 counterpart of `raw_ops`: the same plaintext / randomiser / raw ciphertext / root argument under several keys
+            pub fn raw_ops7(cx: &mut Ctx, tag: &str, p: &BigUint, q: &BigUint, m: &BigUint, r: &BigUint, c: &BigUint) {
+                let sk: Sk = match catch_unwind(AssertUnwindSafe(|| Sk::from_pq(&up(p), &up(q)))) { Ok(s) => s, Err(_) => return };
+                let pk = sk.public_key();
+                let pre = format!("{} {} {}", PBITS, bhex(p), bhex(q));
+                let Some(mm) = pk.into_message(&um(m)) else { return };
+                let e = pk.encrypt_with_r(&mm, &um(r));
+                cx.cmp(&format!("{tag}:enc"), format!("pai enc {pre} {} {}", bhex(m), bhex(r)), hc(&e.to_uint()), Some(format!("pai specenc {pre} {} {}", bhex(m), bhex(r))), "paillier:enc!=spec", "ciphertext differs from (1+mN)·r^N mod N² (same operands under another key just before)", true);
+                let rc = RawCiphertext::from(uc(c));
+                let (d, df) = (sk.decrypt(&rc), sk.decrypt_fast(&rc));
+                cx.cmp(&format!("{tag}:dec"), format!("pai dec {pre} {}", bhex(c)), hm(&d.to_uint()), None, "paillier:dec", "", true);
+                cx.cmp(&format!("{tag}:decfast"), format!("pai decfast {pre} {}", bhex(c)), hm(&df.to_uint()), None, "paillier:decfast", "", true);
+                let (de, dfe) = (sk.decrypt(&e), sk.decrypt_fast(&e));
+                cx.pred(&format!("{tag}:dec"), hm(&de.to_uint()) == bhex(m) && hm(&dfe.to_uint()) == bhex(m), format!("pai dec {pre} {}", hc(&e.to_uint())), format!("{} / {}", hm(&de.to_uint()), hm(&dfe.to_uint())), bhex(m), "paillier:decrypt(enc m)!=m", "decryption of an honest ciphertext does not return the plaintext (same operands under another key just before)");
+                cx.context.push(format!("pai rawops7 {pre} {} {} {}", bhex(m), bhex(r), bhex(c)));
+            }
+
             /// key-level checks: public fields, serialised round trip (2048 only elsewhere), message admission
             pub fn key_checks(cx: &mut Ctx, tag: &str, p: &BigUint, q: &BigUint, rng: &mut impl RngCore) {
                 let sk: Sk = Sk::from_pq(&up(p), &up(q));
@@ -235,9 +252,12 @@ pub fn replay(drv: &mut Driver, rep: &mut Report, lines: &[String], prop: &str) 
             let arg = |i: usize| t.get(i).map(|h| big(h)).unwrap_or_else(|| BigUint::from(1u8));
             macro_rules! go { ($m:ident) => { match t[1] {
                 "message" => { let mut r = case_rng(1, "replay"); $m::key_checks(&mut cx, "replay", &p, &q, &mut r) }
-                "enc" => $m::ops(&mut cx, "replay", &p, &q, &arg(5), &one, &one, &arg(6), &one, false),
+                "enc" if !saw_raw => $m::ops(&mut cx, "replay", &p, &q, &arg(5), &one, &one, &arg(6), &one, false),
                 "mulvt" | "mul" if saw_raw => { let keep = std::mem::take(&mut cx.context); $m::raw_ops(&mut cx, "replay", &p, &q, &arg(5), &one, &arg(6)); cx.context = keep; }
                 "add" if saw_raw => { let keep = std::mem::take(&mut cx.context); $m::raw_ops(&mut cx, "replay", &p, &q, &arg(5), &arg(6), &BigUint::from(2u8)); cx.context = keep; }
+                "rawops7" => { saw_raw = true; let keep = std::mem::take(&mut cx.context); $m::raw_ops7(&mut cx, "replay", &p, &q, &arg(5), &arg(6), &arg(7)); cx.context = keep; }
+                "enc" if saw_raw => { let keep = std::mem::take(&mut cx.context); $m::raw_ops7(&mut cx, "replay", &p, &q, &arg(5), &arg(6), &one); cx.context = keep; }
+                "dec" | "decfast" if saw_raw => { let keep = std::mem::take(&mut cx.context); $m::raw_ops7(&mut cx, "replay", &p, &q, &one, &one, &arg(5)); cx.context = keep; }
                 "rawops" => { saw_raw = true; let keep = std::mem::take(&mut cx.context); $m::raw_ops(&mut cx, "replay", &p, &q, &arg(5), &arg(6), &arg(7)); cx.context = keep; }
                 "specmul" | "specadd" => {}
                 _ => { let mut r = case_rng(1, "replay"); let n = &p * &q; let (m1, m2, k, r1, r2) = (below(&mut r, &n), below(&mut r, &n), below(&mut r, &n), unit_below(&mut r, &n), unit_below(&mut r, &n)); $m::ops(&mut cx, "replay", &p, &q, &m1, &m2, &k, &r1, &r2, false) }
@@ -299,6 +319,19 @@ pub fn run(o: &Opts, drv: &mut Driver, rep: &mut Report, prop: &str) {
     if prop == "C07" {
         let (p, q) = (c1024::gen_prime(&mut rng, 1024), c1024::gen_prime(&mut rng, 1024));
         serde_2048(&mut cx, &p, &q);
+        // ---- the SAME (plaintext, randomiser, raw ciphertext) under several keys in a row on one thread
+        macro_rules! cross7 { ($m:ident, $rounds:expr) => {{
+            let keys: Vec<(BigUint, BigUint)> = (0..3).map(|i| { let bits = if i == 2 { $m::PBITS - 5 } else { $m::PBITS }; ($m::gen_prime(&mut rng, bits), $m::gen_prime(&mut rng, bits)) }).filter(|(p, q)| p != q).collect();
+            let nmin = keys.iter().map(|(p, q)| p * q).min().unwrap();
+            for _ in 0..$rounds {
+                let (m, r, c) = (below(&mut rng, &nmin), unit_below(&mut rng, &nmin), below(&mut rng, &(&nmin * &nmin)));
+                cx.context.clear();
+                for i in [0usize, 1, 0, 2, 1] { if let Some((p, q)) = keys.get(i) { if num_integer_gcd(&r, &(p * q)) && num_integer_gcd(&c, &(p * q)) { $m::raw_ops7(&mut cx, &format!("cross-key-P{}", $m::PBITS), p, q, &m, &r, &c); } } }
+            }
+        }} }
+        if thorough { cross7!(c128, 20 * s); cross7!(c256, 10 * s); cross7!(c512, 6 * s); cross7!(c1024, 3 * s); }
+        else { cross7!(c128, 4 * s); cross7!(c256, 2 * s); cross7!(c512, 1 * s); cross7!(c1024, 1 * s); }
+        cx.context.clear();
     } else {
         // ---- the SAME operands under several keys in a row (A, B, A, C, B …): add / mul / mul_vartime are functions of
         //      (key, operands); whatever a call leaves behind (a memo, a cached modulus) must not reach the next key
